@@ -93,8 +93,7 @@ def r_occur(ctx):
                     ctx.violation(rid, key, ra["file"], ra["line"], "%s seq_match_entry: `%s` gives %s but `%s` gives %s with %s iterations available" % (w, a, ra["verdict"], b, rb["verdict"], k))
 
 
-def r_repeatcount(ctx):
-    rid = "C09.repeatcount"
+def r_repeatcount(ctx, rid="C09.repeatcount"):
     ctx.rule(rid, "validate_repeating_member_count records an error exactly when count < lower bound, and repeating_member_upper_bound "
                   "returns the upper bound, for shorthand and Exact forms alike (abstract evaluation, both validators)", floor=40)
     for w in ("json", "cbor"):
